@@ -355,6 +355,11 @@ static int ex_region(char *loc, int *beg, int *end)
 			xrow = *end - 1;
 		loc++;
 	}
+	if (*end <= *beg) {		/* the second address precedes the first */
+		*beg = -1;
+		*end = -1;
+		return 1;
+	}
 	if (*beg < 0 && *end == 0)
 		*beg = 0;
 	if (*beg < 0 || *beg >= lbuf_len(xb))
